@@ -1,16 +1,9 @@
-(* C19 -- bounded binary64 statement, part 2 of 4 (computed): for the intervals
-   [0.3333333333333333,0.6666666666666666], [0.0,0.3], [2.0,3.0], [-0.5,0.25] (nearest doubles) and every n = 1..2000 the break points of the repaired
-   make_knots pass NpF.bp_ok. *)
-From Coq Require Import PrimFloat List Arith Bool.
+(* C19 -- bounded binary64 statement, chunk 2 of 16 (computed): for the intervals
+   FloatGridDefs.chunk 1 and every n = 1..2000 the break points of the repaired make_knots
+   pass NpF.bp_ok. *)
+From Coq Require Import QArith List Arith Bool.
 From Verif.lib Require Import NpCore NpF.
-Import ListNotations.
-Open Scope float_scope.
+From Verif.C19 Require Import FloatGridDefs.
 
-Definition grid2 : list (float * float) :=
-  [(0x1.5555555555555p-2, 0x1.5555555555555p-1);
-   (0x0.0p+0, 0x1.3333333333333p-2);
-   (0x1.0000000000000p+1, 0x1.8000000000000p+1);
-   ((-0x1.0000000000000p-1), 0x1.0000000000000p-2)].
-
-Lemma grid2_ok : grid_check 2000 grid2 = true.
+Lemma grid2_ok : grid_check 2000 (map f_of_qq (chunk 1)) = true.
 Proof. vm_compute. reflexivity. Qed.
